@@ -338,7 +338,8 @@ func runC16(c *Ctx) {
 	}
 	// Serve: closer goroutine and net.ErrClosed
 	closerOK := false
-	for _, a := range serveFn.AnonFuncs {
+	goTargets := c.goroutinesOf(serveFn, 2)
+	for _, a := range goTargets {
 		recvIdx, closeIdx := -1, -1
 		n := 0
 		for _, b := range a.Blocks {
@@ -360,7 +361,7 @@ func runC16(c *Ctx) {
 			closerOK = true
 		}
 	}
-	R.Check(closerOK, "C16.R3", "Serve:closer-goroutine", c.atFn(serveFn), "a goroutine of Serve closes the listener once the closer channel fires (so Accept fails and Serve returns)", "receive from Server.closer precedes listener.Close in a Serve closure", "no Serve closure receives from Server.closer and then closes the listener")
+	R.Check(closerOK, "C16.R3", "Serve:closer-goroutine", c.atFn(serveFn), "a goroutine of Serve closes the listener once the closer channel fires (so Accept fails and Serve returns)", "receive from Server.closer precedes listener.Close in a goroutine started by Serve (directly or through a helper)", "no goroutine started by Serve receives from Server.closer and then closes the listener")
 	// Serve's return does not wait for client connections: nothing a connection goroutine signals at its end
 	// (WaitGroup.Done, channel close / send) is waited for by Serve itself
 	serveConn := c.P.Method("wire", "Server", "serve")
@@ -402,7 +403,7 @@ func runC16(c *Ctx) {
 	}
 	var signalled []ssa.Value
 	nConn := 0
-	for _, a := range serveFn.AnonFuncs {
+	for _, a := range goTargets {
 		if len(callsIn(a, calleeIs(serveConn))) == 0 {
 			continue
 		}
@@ -548,3 +549,36 @@ func lockOpName(ci ssa.CallInstruction) (string, bool) {
 }
 
 var _ = types.Identical
+
+// goroutinesOf lists the functions started as goroutines by fn or by the functions it calls statically (to the
+// given depth): closures and named functions alike.
+func (c *Ctx) goroutinesOf(fn *ssa.Function, depth int) []*ssa.Function {
+	var out []*ssa.Function
+	seen := map[*ssa.Function]bool{}
+	var walk func(f *ssa.Function, d int)
+	walk = func(f *ssa.Function, d int) {
+		if f == nil || seen[f] || len(f.Blocks) == 0 {
+			return
+		}
+		seen[f] = true
+		for _, ci := range core.Calls(f) {
+			if g, isGo := ci.(*ssa.Go); isGo {
+				if mc, ok := g.Call.Value.(*ssa.MakeClosure); ok {
+					if t, ok := mc.Fn.(*ssa.Function); ok {
+						out = append(out, t)
+					}
+				} else if t := core.StaticCallee(g); t != nil {
+					out = append(out, t)
+				}
+				continue
+			}
+			if d > 0 {
+				if callee := core.StaticCallee(ci); callee != nil && c.P.InPkg(callee, "wire") {
+					walk(callee, d-1)
+				}
+			}
+		}
+	}
+	walk(fn, depth)
+	return out
+}
